@@ -104,7 +104,12 @@ def model_from_calls(writer_actor):
 
         op = writer_actor.ops[c['i']]
 
-        if m.predict(op) != R.ACCEPT:
+        try:
+            p = m.predict(op)
+        except Exception:
+            p = None
+
+        if p != R.ACCEPT:
             return None, 'writer-accepted-unpredicted'
 
         m.apply(op)
@@ -386,3 +391,51 @@ def check_records_against_ref(out, oracle, tag, records, want):
             return False
 
     return True
+
+
+def gen_noise(rng, p=0.35):
+    """Other users of the library in the same process (sharing its
+    process-global tables): a writer whose calls are partly rejected, an
+    object-model user.  Returns actor specs or []."""
+    if not rng.chance(p):
+        return []
+
+    from dsim.props import c09
+    acts = []
+    scn = c09.generate(rng, 'quick', 'calls')
+    w = scn['actors'][0]
+    w = dict(w, id='N1', file='noise1', ops=w['ops'][:25])
+    acts.append(w)
+
+    if rng.chance(0.4):
+        from dsim import domgen
+        ops = domgen.gen_tree_ops(rng, 'N.T1', max_changes=2, max_files=2,
+                                  full=True)
+        ops.append({'op': 'generate_stats', 'tree': 'N.T1', 'path': []})
+        ops.append({'op': 'to_bytes', 'tree': 'N.T1'})
+        acts.append({'id': 'N2', 'kind': 'dom', 'ops': ops})
+
+    return acts
+
+
+def run_noise(scn, L, out):
+    """Run scn['noise'] (see gen_noise) to completion before the part of the
+    scenario that is being judged.  Whatever those actors do - including
+    calls the library rejects - must not change what other users observe."""
+    noise = [a for a in scn.get('noise', ())
+             if isinstance(a, dict) and a.get('kind') in ('writer', 'dom')]
+
+    if not noise:
+        return
+
+    from dsim import domworld  # noqa: registers the dom actor kind
+    w = make_world({'actors': noise, 'schedule': [], 'faults': []}, L)
+
+    try:
+        w.run()
+    except Exception:
+        pass
+
+    out.steps += w.steps
+    out.events += len(w.log)
+    out.probe('noise_actors_ran')
